@@ -25,7 +25,7 @@ from checks import c10_restore as C10
 PID = "C19"
 LEVEL = "exploration"
 TIERS = {
-    "quick": {"runs": 480, "batch": 1, "timeout_s": 600, "cycles": 5, "shrink_budget": 40},
+    "quick": {"runs": 800, "batch": 1, "timeout_s": 600, "cycles": 5, "shrink_budget": 40},
     "thorough": {"runs": 8000, "batch": 1, "timeout_s": 1200, "cycles": 7, "shrink_budget": 80},
 }
 RULE = ("History = (functional x method x user-object kind x function kind x usage in {forward, forward+backward, "
